@@ -328,6 +328,45 @@ func c10Descs() []desc {
 			in := oi[ix[3]]
 			return fmt.Sprintf("%s, %s, %s, lens(%d,%d,%d,%d,%d)", sh(s), sh(code), sd, len(in.Counter), len(in.Challenge), len(in.Password), len(in.SessionInfo), len(in.Timestamp)), func() { otp.ValidateOCRA(s, code, su, in) }
 		}},
+		{"GenerateOCRA/ValidateOCRA-inconsistent-suite-values", "GenerateOCRA", []int{5, 12, 6, 6, 2, 3}, func(ix []int) (string, func()) {
+			// suite VALUES whose name and numbers contradict one another: a registered / parsable / junk name on a
+			// configuration with out-of-range digits or hash, as a bare SuiteConfig and wrapped in RawSuite (what a
+			// caller gets by editing a constructor's result)
+			raw := []string{"OCRA-1:HOTP-SHA1-6:QN08", "OCRA-1:HOTP-SHA512-8:C-QN08-PSHA1-S064-T1M", "OCRA-1:HOTP-SHA1-7:QN08", "", "junk"}[ix[0]]
+			d := []int{-1 << 63, -1, 0, 3, 4, 6, 10, 11, 12, 200, 1 << 31, 1<<63 - 1}[ix[1]]
+			h := []int{0, 1, 2, 3, -1, 255}[ix[2]]
+			cfg := otp.SuiteConfig{Raw: raw, Hash: otp.Algorithm(h), Digits: d}
+			switch ix[3] {
+			case 0:
+				cfg.IncludeChallenge, cfg.Challenge = true, 1
+			case 1:
+				cfg.IncludeChallenge, cfg.Challenge = true, 7
+			case 2:
+				cfg.IncludeChallenge = true
+			case 3:
+				cfg.IncludeCounter, cfg.IncludeChallenge, cfg.IncludePassword, cfg.IncludeSession, cfg.IncludeTimestamp, cfg.Challenge, cfg.PasswordHash, cfg.TimeStep = true, true, true, true, true, 1, 1, 60
+			case 4:
+				cfg.IncludeCounter, cfg.IncludeChallenge, cfg.IncludePassword, cfg.IncludeSession, cfg.IncludeTimestamp, cfg.Challenge, cfg.PasswordHash, cfg.TimeStep = true, true, true, true, true, 6, 9, -1
+			}
+			var su otp.Suite = cfg
+			kind := "SuiteConfig"
+			if ix[4] == 1 {
+				su, kind = otp.RawSuite{SuiteConfig: cfg}, "RawSuite"
+			}
+			in := []otp.OCRAInput{{Challenge: mkLen(8, 2)}, {Counter: mkLen(8, 1), Challenge: mkLen(16, 2), Password: mkLen(20, 3), SessionInfo: mkLen(5, 4), Timestamp: mkLen(8, 5)}, {}}[ix[5]]
+			code := "1"
+			if d > 0 && d < 300 {
+				code = strings.Repeat("1", d)
+			}
+			return fmt.Sprintf("%s{Raw:%s Digits:%d Hash:%d fields#%d}, input#%d", kind, sh(raw), d, h, ix[3], ix[5]), func() {
+				otp.GenerateOCRA(aSecrets[2], su, in)
+				otp.ValidateOCRA(aSecrets[2], code, su, in)
+				_ = su.Validate()
+				_ = su.String()
+				_ = su.Config()
+				_ = in.Validate(cfg)
+			}
+		}},
 		{"GenerateOCRA/ValidateOCRA-long-suite-text", "GenerateOCRA", []int{16 + 14, len(oi)}, func(ix []int) (string, func()) {
 			var su otp.Suite
 			var sd string
